@@ -80,3 +80,12 @@ Definition merge_attributes (numeric : bool) (a1 a2 : attrs) : result attrs :=
                             | Err e, _ => Err e
                             | _, Err e => Err e
                             end) (Ok []) new_d.
+
+(* ---- vocabulary of C17_merge_numeric_ascending ---- *)
+(* the numeric reading of a value *)
+Definition dec_le (a b : str) : Prop :=
+  match classify a, classify b with
+  | Dec m1 k1, Dec m2 k2 => m1 * 10 ^ Z.of_nat k2 <= m2 * 10 ^ Z.of_nat k1
+  | _, _ => False
+  end.
+
